@@ -13,11 +13,11 @@ same state components, same handlers, same order of checks.
   (`dialAns`, `openAns`) and the calls made are recorded in `State.calls`.
 * `debug_assert!`s are an explicit `panicked` flag (the state is otherwise left as the code leaves
   it before the assertion).
-* Ghost components (`log`, `issued`, `cancelSent`, `cancelDone`, `opened`, `sentOn`, `wire`,
-  `calls`) are never read by the handlers. `opened` records every substream id `open_substream`
+* Ghost components (`log`, `issued`, `cancelSent`, `cancelDone`, `opened`, `sentOn`, `written`,
+  `wire`, `calls`) are never read by the handlers. `opened` records every substream id `open_substream`
   handed out together with the request it was opened for, `sentOn` every substream on which a
-  request future was started (the future writes the request once), `wire` what the responder wrote
-  on a substream.
+  request future was started, `written` the payload that future writes on it (once), `wire` what
+  the responder wrote on a substream.
 
 Core Lean only (the model driver links against this file).
 -/
@@ -80,11 +80,25 @@ inductive DialOptions
   | dial | reject
 deriving DecidableEq, Repr
 
-/-- `RequestContext` (fallbacks are not modelled). -/
+/-- A request as handed to the protocol: the payload for the main protocol and, for
+`send_request_with_fallback`, the fallback protocol (names are numbered) with its own payload. -/
+structure Request where
+  main : Payload
+  fallback : Option (Nat × Payload) := none
+deriving DecidableEq, Repr
+
+/-- What the request future writes on a substream negotiated with `negotiated` as fallback protocol
+(`on_outbound_substream`: the fallback request iff the negotiated fallback is the request's). -/
+def Request.payloadFor (r : Request) (negotiated : Option Nat) : Payload :=
+  match negotiated, r.fallback with
+  | some n, some (fn, fr) => if n = fn then fr else r.main
+  | _, _ => r.main
+
+/-- `RequestContext`. -/
 structure Ctx where
   peer : Peer
   rid : Rid
-  request : Payload
+  request : Request
 deriving DecidableEq, Repr
 
 /-- `PeerContext`. -/
@@ -132,6 +146,7 @@ structure State where
   cancelDone : List Rid := []
   opened : List (Sid × Ctx) := []
   sentOn : List (Sid × Ctx) := []
+  written : List (Sid × Payload) := []
   wire : List (Sid × Payload) := []
 
 /-! ## Association lists (first entry with the key) -/
@@ -163,7 +178,7 @@ def emit (s : State) (e : Event) : State := { s with log := s.log ++ [e] }
 
 /-- `on_send_request` followed by `report_request_failure` on error (`handle_user_command`).
 `dialAns` / `openAns` are the answers the service gives if it is called. -/
-def onSendRequest (s : State) (peer : Peer) (rid : Rid) (request : Payload) (opts : DialOptions)
+def onSendRequest (s : State) (peer : Peer) (rid : Rid) (request : Request) (opts : DialOptions)
     (dialAns : Except DialErr Unit) (openAns : Except SubErr Sid) : State :=
   let s := { s with issued := s.issued ++ [⟨peer, rid, request⟩] }
   match alFind peer s.peers with
@@ -244,8 +259,9 @@ def onConnectionClosed (s : State) (peer : Peer) : State :=
   | (none, _) => s
   | (some ctx, peers) => failAll peer ctx.active { s with peers := peers }
 
-/-- `on_outbound_substream`: the future is pushed; it writes `request` on the substream. -/
-def onOutboundSubstream (s : State) (peer : Peer) (sid : Sid) : State :=
+/-- `on_outbound_substream`: the future is pushed; it writes the request (or the fallback request,
+if the substream was negotiated with the request's fallback protocol) on the substream. -/
+def onOutboundSubstream (s : State) (peer : Peer) (sid : Sid) (fallback : Option Nat) : State :=
   match alTake sid s.pendingOutbound with
   | (none, _) => { s with panicked := true }    -- `debug_assert!(false)`
   | (some ctx, outbound) =>
@@ -253,7 +269,8 @@ def onOutboundSubstream (s : State) (peer : Peer) (sid : Sid) : State :=
       pendingOutbound := outbound
       pendingCancels := ctx.rid :: s.pendingCancels.erase ctx.rid
       pendingInbound := s.pendingInbound ++ [⟨peer, ctx.rid, sid⟩]
-      sentOn := s.sentOn ++ [(sid, ⟨peer, ctx.rid, ctx.request⟩)] }
+      sentOn := s.sentOn ++ [(sid, ⟨peer, ctx.rid, ctx.request⟩)]
+      written := s.written ++ [(sid, ctx.request.payloadFor fallback)] }
 
 /-- `on_substream_open_failure`. -/
 def onSubstreamOpenFailure (s : State) (sid : Sid) (error : SubErr) : State :=
@@ -343,13 +360,13 @@ def onResponseDone (s : State) (f : InFut) : State :=
 inductive Input
   /-- `RequestResponseHandle::send_request` + `SendRequest` command: the id is allocated from the
   shared counter. -/
-  | send (peer : Peer) (request : Payload) (opts : DialOptions)
+  | send (peer : Peer) (request : Request) (opts : DialOptions)
       (dialAns : Except DialErr Unit) (openAns : Except SubErr Sid)
   | cancel (rid : Rid)
   | connectionEstablished (peer : Peer) (openAns : Nat → Except SubErr Sid)
   | connectionClosed (peer : Peer)
   | dialFailure (peer : Peer)
-  | outboundSubstream (peer : Peer) (sid : Sid)
+  | outboundSubstream (peer : Peer) (sid : Sid) (fallback : Option Nat)
   | substreamOpenFailure (sid : Sid) (error : SubErr)
   | inboundSubstream (peer : Peer)
   | futureDone (f : Fut) (res : FutResult)
@@ -365,7 +382,7 @@ def step (s : State) : Input → State
   | .connectionEstablished peer openAns => onConnectionEstablished s peer openAns
   | .connectionClosed peer => onConnectionClosed s peer
   | .dialFailure peer => onDialFailure s peer
-  | .outboundSubstream peer sid => onOutboundSubstream s peer sid
+  | .outboundSubstream peer sid fallback => onOutboundSubstream s peer sid fallback
   | .substreamOpenFailure sid error => onSubstreamOpenFailure s sid error
   | .inboundSubstream peer => onInboundSubstream s peer
   | .futureDone f res => onSubstreamEvent s f res
@@ -389,7 +406,7 @@ def Allowed (s : State) : Input → Prop
     (∀ i sid, openAns i = .ok sid →
       alFind sid s.pendingOutbound = none ∧ (∀ e ∈ s.sentOn, e.1 ≠ sid) ∧ (∀ e ∈ s.opened, e.1 ≠ sid)) ∧
     (∀ i j sid, openAns i = .ok sid → openAns j = .ok sid → i = j)
-  | .outboundSubstream peer sid => ∀ ctx, alFind sid s.pendingOutbound = some ctx → ctx.peer = peer
+  | .outboundSubstream peer sid _ => ∀ ctx, alFind sid s.pendingOutbound = some ctx → ctx.peer = peer
   | .futureDone f res =>
     f ∈ s.pendingInbound ∧
     (res = .error .canceled → f.rid ∈ s.cancelSent) ∧
